@@ -334,6 +334,19 @@ class Loader:
         for h in self.with_hooks:
             if h(eng, node, fr):
                 return
+        # @contextlib.contextmanager generator functions of the repo are executed for real: the function body runs up
+        # to its `yield`, the with-body runs nested at that point (an exception of the body is raised at the yield, so
+        # try/except/finally around the yield behave as in CPython), then the rest of the function runs.
+        if len(node.items) == 1 and isinstance(node.items[0].context_expr, ast.Call):
+            item = node.items[0]
+            call = item.context_expr
+            try:
+                target = eng.eval(call.func, fr)
+            except (Unsupported, PyRaise):
+                target = None
+            if isinstance(target, FuncRef) and self.call_hook(target) is None and any(
+                    ast.unparse(d).endswith('contextmanager') for d in getattr(target.node, 'decorator_list', [])):
+                return self.exec_with_contextmanager(eng, node, fr, target, call, item)
         # generic protocol: __enter__/__exit__ of repo objects, stubs for others
         mgrs = []
         for item in node.items:
@@ -370,6 +383,39 @@ class Loader:
                 cm.vc_exit(eng, exc_args)
         if pending is not None:
             raise pending
+
+    def exec_with_contextmanager(self, eng, node, fr, target, call, item):
+        from .engine import _Return, _Break, _Continue
+        args = [eng.eval(a, fr) for a in call.args]
+        kwargs = {k.arg: eng.eval(k.value, fr) for k in call.keywords}
+        env = eng.bind_args(target.node, args, kwargs, target.bound, target.mod, target.closure)
+        cfr = Frame(target.qualname, target.mod, env, closure=target.closure)
+        cfr.cls = target.cls
+        state = {'yielded': 0, 'pending': None}
+
+        def on_ctx_yield(value):
+            state['yielded'] += 1
+            if state['yielded'] > 1:
+                raise PyRaise('RuntimeError', "generator didn't stop")
+            if item.optional_vars is not None:
+                eng.assign(item.optional_vars, value, fr)
+            try:
+                eng.exec_block(node.body, fr)
+            except (_Return, _Break, _Continue) as cf:
+                state['pending'] = cf       # leaving the with-block by control flow: __exit__(None, None, None)
+        cfr.ctx_yield = on_ctx_yield
+        eng.depth += 1
+        try:
+            try:
+                eng.exec_block(target.node.body, cfr)
+            except _Return:
+                pass
+        finally:
+            eng.depth -= 1
+        if state['yielded'] == 0:
+            raise PyRaise('RuntimeError', "generator didn't yield")
+        if state['pending'] is not None:
+            raise state['pending']
 
     # ---- externals
     def resolve_external(self, dotted, eng):
